@@ -1,6 +1,8 @@
 #[cfg(feature = "serde")]
 #[cfg_attr(doc_cfg, doc(cfg(feature = "serde")))]
 mod impl_serde;
+#[cfg(brood_verif)]
+mod verif;
 
 /// A unique identifier for an entity.
 ///
